@@ -24,7 +24,7 @@ RULE = (
     "violation. Non-trivial: a parameterised macro used >= 2 times with different actuals, or >= 2 macro kinds combined; distinct by canonical hash."
 )
 ASSUMPTIONS = ["only the supported use forms are generated (string macro as key with an operand list, formals in key position, item macro with sibling times are not)", "macro names pairwise not substrings of one another"]
-FLOORS = {"kind=nested-pass-through": 0.02, "kind=independent-uses": 0.02, "has-deref": 0.08, "kind=item": 0.1, "kind=operand": 0.1, "kind=substring": 0.1, "kind=times-body": 0.02, "kind=param": 0.15, "extra-files": 0.3, "multi-use": 0.3}
+FLOORS = {"kind=nested-pass-through": 0.02, "kind=independent-uses": 0.02, "has-deref": 0.08, "kind=item": 0.1, "kind=operand": 0.1, "kind=substring": 0.1, "kind=times-body": 0.012, "kind=param": 0.15, "extra-files": 0.3, "multi-use": 0.3}
 
 
 def budget(tier):
@@ -92,14 +92,28 @@ def cases(draw):
             use = ["@lib_", "ret"]
         return {"pair": True, "lib": lib, "use": use, "inner": [inner_a, inner_b], "repeat_first": draw(st.booleans())}
     form = draw(st.integers(0, 11))
-    if form == 0:
+    if form in (0, 2):
         # parameterised macros written out by hand, the inlined rule next to them.  Three variants:
         #  pass-through   the outer macro hands its own formal on to a second parameterised macro under the same name (the
         #                 repository's macro files use `reg` everywhere):           xor A, A ; <second>(A)
         #  fixed-inner    the inner call has a fixed argument, its label is spelled like the outer formal:  xor K, K ; <second>(A)
         #  nested-key     two formals, one of them named like a key that occurs inside the other one's (mapping-valued) argument:
         #                 @store(main_reg, dst) = mov [main_reg, dst], called with dst: {$deref: {main_reg: rsp}}
-        variant = draw(st.sampled_from(["pass-through", "fixed-inner", "fixed-inner", "nested-key", "nested-key"]))
+        variant = draw(st.sampled_from(["pass-through", "fixed-inner", "fixed-inner", "nested-key", "nested-key", "times-formal", "times-formal"]))
+        if variant == "times-formal":
+            #  times-formal   a formal parameter stands for the value of `times` (every spelling), the argument is an integer or a range:
+            #                 @pad(cnt) = {$or: [nop, xchg], times: cnt}, called with cnt: 3, must be the group written with times: 3
+            cnt = draw(st.sampled_from([3, 0, 2, 1, {"min": 1, "max": 2}, {"min": 0, "max": 3}]))
+            shape_ = draw(st.sampled_from(["group-sibling", "item-inside", "item-sibling", "item-ops-sibling"]))
+
+            def body_(v_):
+                return {"group-sibling": {"$or": ["nop", "xchg"], "times": v_}, "item-inside": {"nop": {"times": v_}}, "item-sibling": {"nop": [], "times": v_},
+                        "item-ops-sibling": {"mov": ["rax"], "times": v_}}[shape_]
+
+            macros_ = [{"name": "@ypad_", "args": ["cnt"], "pattern": [body_("cnt")]}]
+            in_file, files = split_definitions(draw, macros_)
+            pre_ = draw(st.sampled_from([[], ["push"]]))
+            return {"handmade": "nested-pass-through", "variant": variant, "factored": pre_ + [{"@ypad_": None, "cnt": cnt}, "ret"], "inlined": pre_ + [body_(cnt), "ret"], "macros_in_file": in_file, "macro_files": files}
         actual = draw(st.sampled_from(["rax", "%r8d", "0x10", 0, "e"]))
         if variant == "nested-key":
             key = draw(st.sampled_from(["main_reg", "constant_offset", "register_multiplier"]))
